@@ -81,7 +81,7 @@ func (c07) Budget(tier string) (int, time.Duration) {
 	if tier == "thorough" {
 		return 3_000_000, 15 * time.Minute
 	}
-	return 60_000, 40 * time.Second
+	return 120_000, 40 * time.Second
 }
 func (c07) Assumptions() []string {
 	return []string{
@@ -155,7 +155,32 @@ func genOperatorOp(r *R, nCfg int) COp {
 
 // discriminating picks requests whose answers differ between as many of the
 // states in play as possible (computed with the sequential code).
-func discriminating(r *R, cfgs []Cfg, n int) []Req {
+type reqPool struct {
+	sc     []scoredReq
+	actual []scoredReq
+}
+type scoredReq struct {
+	q Req
+	d int
+}
+
+func (rp *reqPool) pick(r *R, n int) []Req {
+	var out []Req
+	top := max(4, len(rp.sc)/4)
+	for i := 0; i < n; i++ {
+		switch x := r.Intn(20); {
+		case x < 5 && len(rp.actual) > 0:
+			out = append(out, rp.actual[r.Intn(min(len(rp.actual), 6))].q)
+		case x < 16:
+			out = append(out, rp.sc[r.Intn(top)].q)
+		default:
+			out = append(out, rp.sc[r.Intn(len(rp.sc))].q)
+		}
+	}
+	return out
+}
+
+func discriminating(r *R, cfgs []Cfg) *reqPool {
 	type st struct{ srv *mwServer }
 	var states []*mwServer
 	states = append(states, newServer(new(cors.Middleware).Wrap))
@@ -172,42 +197,26 @@ func discriminating(r *R, cfgs []Cfg, n int) []Req {
 	var cands []Req
 	for _, c := range cfgs {
 		s := probeSuite(c)
-		for i := 0; i < 24; i++ {
+		for i := 0; i < 16; i++ {
 			cands = append(cands, s[r.Intn(len(s))])
 		}
 	}
-	type scored struct {
-		q Req
-		d int
-	}
-	var sc []scored
+	var sc []scoredReq
 	for _, q := range cands {
 		seen := map[Resp]bool{}
 		for _, s := range states {
 			seen[s.do(q)] = true
 		}
-		sc = append(sc, scored{q, len(seen)})
+		sc = append(sc, scoredReq{q, len(seen)})
 	}
 	sort.SliceStable(sc, func(i, j int) bool { return sc[i].d > sc[j].d })
-	var out []Req
-	top := max(4, len(sc)/4)
-	var actual []scored // non-preflight CORS requests whose answer separates at least two states
-	for _, x := range sc {
+	rp := &reqPool{sc: sc}
+	for _, x := range sc { // non-preflight CORS requests whose answer separates at least two states
 		if _, hasO := x.q.get(hOrigin); hasO && !isPreflightReq(x.q) && x.d >= 2 {
-			actual = append(actual, x)
+			rp.actual = append(rp.actual, x)
 		}
 	}
-	for i := 0; i < n; i++ {
-		switch x := r.Intn(20); {
-		case x < 5 && len(actual) > 0:
-			out = append(out, actual[r.Intn(min(len(actual), 6))].q)
-		case x < 16:
-			out = append(out, sc[r.Intn(top)].q)
-		default:
-			out = append(out, sc[r.Intn(len(sc))].q)
-		}
-	}
-	return out
+	return rp
 }
 
 func (e c07) Gen(r *R, tier string) any {
@@ -223,6 +232,7 @@ func (e c07) Gen(r *R, tier string) any {
 	}
 	p.InitCfg = r.Intn(n+1) - 1
 	p.InitDebug = p.InitCfg >= 0 && r.P(0.5)
+	pool := discriminating(r, p.Cfgs) // once per plan: the request pool and how well each request separates the states
 	nClients, nOps := r.Range(1, 3), r.Range(1, 2)
 	maxReq, maxOp, preemptChoices := 4, 4, []int{0, 1, 1, 2, 2, 3, 4}
 	if tier == "thorough" && r.P(0.35) { // deeper bounds in a third of the thorough runs
@@ -232,7 +242,7 @@ func (e c07) Gen(r *R, tier string) any {
 	for i := 0; i < nClients; i++ {
 		k := r.Range(1, maxReq)
 		var t CTask
-		for _, q := range discriminating(r, p.Cfgs, k) {
+		for _, q := range pool.pick(r, k) {
 			q := q
 			// follow-up traffic: a third of the requests repeat an earlier request of
 			// the run (same client or another one) — what a stale per-middleware cache
